@@ -162,6 +162,14 @@ def Store.merge (s : Store) (other : List Edge) (pfx : Bool) : Store × Except E
 def Store.assignMol (s : Store) (sp : String) (m : String) : Store × Except Err Unit :=
   if sp ∈ s.species then ({ s with mol := s.mol.set sp m }, .ok ()) else (s, .error .keyError)
 
+/-- `set_mol_map(mapping, strict=..., clear_existing=...)`. -/
+def Store.setMolMap (s : Store) (mapping : List (String × String)) (strict clear : Bool) :
+    Store × Except Err Unit :=
+  if strict && mapping.any (fun kv => kv.1 ∉ s.species) then (s, .error .keyError) else
+  let base : Dict String := if clear then [] else s.mol
+  ({ s with mol := mapping.foldl (fun m kv => if kv.1 ∈ s.species then m.set kv.1 kv.2 else m) base },
+   .ok ())
+
 /-- Coefficient of a species on a side. -/
 def coeff (side : Side) (sp : String) : Int := (side.getD sp 0 : Nat)
 
@@ -180,6 +188,7 @@ inductive Op
   | merge (k j : Nat) (pfx : Bool)
   | copy (k j : Nat)
   | assignMol (k : Nat) (sp m : String)
+  | setMolMap (k : Nat) (mapping : List (String × String)) (strict clear : Bool)
 deriving Repr
 
 inductive Out | ok | okId (id : String) | err (e : Err) | badOp
@@ -222,6 +231,10 @@ def step (w : World) (op : Op) : World × Out :=
     match w[k]? with
     | none => (w, .badOp)
     | some s => let (s', r) := s.assignMol sp m; (w.put k s', outOf r)
+  | .setMolMap k mapping strict clear =>
+    match w[k]? with
+    | none => (w, .badOp)
+    | some s => let (s', r) := s.setMolMap mapping strict clear; (w.put k s', outOf r)
 
 def run (w : World) (ops : List Op) : World := ops.foldl (fun w op => (step w op).1) w
 
